@@ -62,6 +62,23 @@ def handle : List String → String
         | .error _ => "-"
       what ++ " tcpq=" ++ tcpq ++ " buf=" ++ Hex.showBool (buf == q) ++ " id=" ++ idok
     | _, _ => "bad-op"
+  -- `tcpconn <event>...`: the life of one TCP connection of the fallback transport as the server saw it:
+  -- `t<k>` query number k was read on it, `g` the caller waiting on it gave up (context ended),
+  -- `r` a reply was written (to the oldest query without reply). Prints who got which reply
+  -- (`<k of the caller>:<k the reply answers>`); what a give-up does to the connection is read from the source.
+  | "tcpconn" :: evs =>
+    let ev : String → Option Model.C17.CEv := fun s =>
+      if s == "g" then some .giveUp
+      else if s == "r" then some .reply
+      else if s.startsWith "t" then (s.drop 1).toNat?.map fun k => .take [UInt8.ofNat k]
+      else none
+    match evs.mapM ev with
+    | some es =>
+      let idle := Gen.Facts.c17TcpConnIdleOnlyWhenNothingOwed != some true
+      let ds := Model.C17.crun idle Model.C17.TConn.fresh es
+      let one : Bytes × Bytes → String := fun d => toString (d.1.getD 0 0).toNat ++ ":" ++ toString (d.2.getD 0 0).toNat
+      if ds.isEmpty then "-" else ",".intercalate (ds.map one)
+    | none => "bad-op"
   | _ => "bad-op"
 
 end Driver.C17
